@@ -20,7 +20,7 @@ p = subprocess.run([os.path.join(VERIF, "bin", "try_mutant.sh"), os.path.join(d,
 out = p.stdout + p.stderr
 caught = re.search(r"^VIOLATION property=%s " % checkprop, out, re.M) is not None
 sig = ""
-m = re.findall(r"(?:VIOLATION|verdict:) (%s/[^\s:]+):" % checkprop, out)
+m = re.findall(r"(?:VIOLATION|violation|verdict:) (%s/[^\s:]+):" % checkprop, out)
 if m:
     sig = m[-1]
 if not caught and "DOES NOT APPLY" in out:
